@@ -97,11 +97,16 @@ pub struct SourceCfg<'d> {
     pub boundaries: Option<&'d [usize]>,
     /// record every answer in `SrcState::log`
     pub record: bool,
+    /// A source may use the slice it is handed as scratch space: with `Some(b)` every byte of the
+    /// slice behind the reported length (the whole slice for Interrupted / end / error answers) is
+    /// overwritten with `b`. Nothing a correct caller can observe - the bytes were never reported as
+    /// read - but whoever looks beyond the valid window finds `b` there instead of zeros.
+    pub scribble: Option<u8>,
 }
 
 impl<'d> SourceCfg<'d> {
     pub fn new(data: &'d [u8], grain: Grain) -> Self {
-        SourceCfg { data, grain, fault_at: None, fault_kind: 0, interrupts: 0, boundaries: None, record: false }
+        SourceCfg { data, grain, fault_at: None, fault_kind: 0, interrupts: 0, boundaries: None, record: false, scribble: None }
     }
     pub fn fault_at(mut self, k: Option<usize>) -> Self {
         self.fault_at = k;
@@ -121,6 +126,10 @@ impl<'d> SourceCfg<'d> {
     }
     pub fn record(mut self, r: bool) -> Self {
         self.record = r;
+        self
+    }
+    pub fn scribble(mut self, b: Option<u8>) -> Self {
+        self.scribble = b;
         self
     }
 }
@@ -173,6 +182,22 @@ impl<'d> ScriptedSource<'d> {
 
 impl Read for ScriptedSource<'_> {
     fn read(&mut self, buf: &mut [u8]) -> io::Result<usize> {
+        let r = self.read_inner(buf);
+        if let Some(b) = self.cfg.scribble {
+            let n = match &r {
+                Ok(n) => (*n).min(buf.len()),
+                Err(_) => 0,
+            };
+            for x in &mut buf[n..] {
+                *x = b;
+            }
+        }
+        r
+    }
+}
+
+impl ScriptedSource<'_> {
+    fn read_inner(&mut self, buf: &mut [u8]) -> io::Result<usize> {
         let mut st = self.st.borrow_mut();
         st.read_calls += 1;
         st.max_request = st.max_request.max(buf.len());
